@@ -6,8 +6,10 @@ import (
 	"math/big"
 	"math/rand"
 	"os"
+	"runtime"
 	"runtime/debug"
 	"strings"
+	"sync"
 
 	"github.com/golang/protobuf/proto"
 	"github.com/xuperchain/xupercore/bcs/ledger/xledger/state/utxo/txhash"
@@ -603,6 +605,77 @@ func main() {
 			_ = vicTot
 		}
 	}
+	// ---- a forged body under the id of a transaction whose verification is in flight ----
+	// The engine verifies submissions without any lock (Chain.SubmitTx -> State.VerifyTx), so copies
+	// of one id can be verified at the same time. Whatever is shared between such verifications,
+	// a body that is not what the id commits to must be refused, and the pool must never hold a
+	// transaction whose id is not the hash of its body.
+	{
+		n := corpusNode
+		var multi []corpus.Item
+		for _, it := range w.Items {
+			if len(it.Tx.AuthRequireSigns)+len(it.Tx.InitiatorSigns) >= 3 && len(it.Tx.TxOutputs) > 0 && len(it.Tx.ContractRequests) == 0 {
+				multi = append(multi, it) // several signatures: its verification stays open longer
+			}
+		}
+		rounds := r.N(60, 600)
+		for ri := 0; ri < rounds && len(multi) > 0; ri++ {
+			it := multi[ri%len(multi)]
+			tw, err := n.Twin()
+			if err != nil {
+				break
+			}
+			forged := sn.CloneTx(it.Tx)
+			forged.TxOutputs[0].ToAddr = []byte(sn.K(5).Address) // id and signatures kept
+			var wg sync.WaitGroup
+			start := make(chan struct{})
+			acks := make([]error, 4)
+			for g := 0; g < 4; g++ {
+				wg.Add(1)
+				go func(g int) {
+					defer wg.Done()
+					defer func() {
+						if p := recover(); p != nil {
+							acks[g] = fmt.Errorf("PANIC: %v", p)
+						}
+					}()
+					<-start
+					if g == 0 {
+						acks[g] = tw.SubmitTx(sn.CloneTx(it.Tx))
+					} else {
+						for k := 0; k < g; k++ {
+							runtime.Gosched()
+						}
+						acks[g] = tw.SubmitTx(sn.CloneTx(forged))
+					}
+				}(g)
+			}
+			close(start)
+			wg.Wait()
+			r.Case("attack|forged-copy-of-in-flight-tx|"+it.Name, true)
+			r.Count("attacks", 1)
+			r.Count("attacks.forged-copy-in-flight", 1)
+			bad := ""
+			for g := 1; g < 4; g++ {
+				if acks[g] == nil {
+					bad = fmt.Sprintf("submission %d of a body that is not what the id commits to (first output redirected, id and signatures of the honest transaction %s kept) was acknowledged while the honest one was being verified", g, it.Name)
+				} else if strings.HasPrefix(acks[g].Error(), "PANIC") {
+					bad = acks[g].Error()
+				}
+			}
+			pool, _ := tw.State.GetUnconfirmedTx(false)
+			for _, x := range pool {
+				if id, err := txhash.MakeTransactionID(x); err != nil || string(id) != string(x.Txid) {
+					bad = fmt.Sprintf("the pool holds a transaction under id %x whose body hashes to %x", x.Txid, id)
+				}
+			}
+			tw.Drop()
+			if bad != "" {
+				r.Violation("attack-accepted|forged-body-under-the-id-of-a-transaction-in-flight", bad, map[string]string{"item": it.Name})
+				break
+			}
+		}
+	}
 	// ---- a forged coinbase as the block's ONLY coinbase ----
 	// The trials above put the forgery next to the honest award, so the ledger's "one coinbase per
 	// block" rule refuses the block before the state machine sees it. A producer who forges leaves
@@ -699,6 +772,7 @@ func main() {
 	r.Floor("mutants", 1500)
 	r.Floor("attacks", 60)
 	r.Floor("attacks.contract-spend", 3)
+	r.Floor("attacks.forged-copy-in-flight", 40)
 	r.Floor("attacks.sole-coinbase", 3)
 	r.Floor("blockpath.trials", 200)
 	r.Floor("blockpath.trials.original-in-pool", 80)
